@@ -6,6 +6,7 @@ import (
 	"sort"
 	"strings"
 	"sync"
+	"sync/atomic"
 	"testing"
 	"time"
 
@@ -78,6 +79,8 @@ type c18Handler struct {
 	log         []c18Event
 	removed     bool
 	delay       time.Duration // a handler that takes its time over every event
+	gone        int32         // set (atomically) once RemoveEventHandlers has returned for this handler
+	late        int32         // callbacks that started after that
 }
 
 func (h *c18Handler) rec(typ string, obj interface{}) {
@@ -89,6 +92,9 @@ func (h *c18Handler) rec(typ string, obj interface{}) {
 	}
 	if u == nil {
 		return
+	}
+	if atomic.LoadInt32(&h.gone) == 1 {
+		atomic.AddInt32(&h.late, 1)
 	}
 	h.mu.Lock()
 	h.log = append(h.log, c18Event{typ, u.GetName(), u.GetResourceVersion()})
@@ -716,12 +722,12 @@ func TestVerifC18Concurrent(t *testing.T) {
 			return fmt.Errorf("harness: %v", err)
 		}
 		nSubs := 2 + c.Int(4)
-		type step struct{ op, res int }
+		type step struct{ op, res, pause int }
 		plans := make([][]step, nSubs)
 		for i := range plans {
 			n := 3 + c.Int(8)
 			for j := 0; j < n; j++ {
-				plans[i] = append(plans[i], step{c.Int(4), c.Int(len(c18Resources))})
+				plans[i] = append(plans[i], step{c.Int(4), c.Int(len(c18Resources)), c.Int(4)})
 			}
 		}
 		c.Describe(func() any { return map[string]any{"subscribers": nSubs, "plans": fmt.Sprint(plans)} })
@@ -754,7 +760,16 @@ func TestVerifC18Concurrent(t *testing.T) {
 			go func(i int) {
 				defer wg.Done()
 				open := map[int]*ResourceInformer{}
+				mine := map[int][]*c18Handler{}
+				markGone := func(res int) {
+					for _, h := range mine[res] {
+						atomic.StoreInt32(&h.gone, 1)
+					}
+					mine[res] = nil
+				}
 				for _, st := range plans[i] {
+					// a pause of 0-3 ms: long enough for events to be in flight when the next call lands
+					time.Sleep(time.Duration(st.pause) * time.Millisecond)
 					res := c18Resources[st.res]
 					ri := open[st.res]
 					switch {
@@ -767,9 +782,13 @@ func TestVerifC18Concurrent(t *testing.T) {
 						open[st.res] = r
 					case st.op == 0 || st.op == 1:
 						h := &c18Handler{id: fmt.Sprintf("g%d@%s", i, res), name: c18Name(res), apiVersion: c18APIVersion(res)}
+						if (i+len(mine[st.res]))%2 == 1 {
+							h.delay = time.Millisecond
+						}
 						mu.Lock()
 						handlers = append(handlers, h)
 						mu.Unlock()
+						mine[st.res] = append(mine[st.res], h)
 						if st.op == 0 {
 							ri.Informer().AddEventHandler(h)
 						} else {
@@ -777,14 +796,17 @@ func TestVerifC18Concurrent(t *testing.T) {
 						}
 					case st.op == 2:
 						ri.Informer().RemoveEventHandlers()
+						markGone(st.res)
 					default:
 						ri.Informer().RemoveEventHandlers()
+						markGone(st.res)
 						ri.Close()
 						delete(open, st.res)
 					}
 				}
-				for _, ri := range open {
+				for k, ri := range open {
 					ri.Informer().RemoveEventHandlers()
+					markGone(k)
 					ri.Close()
 				}
 			}(i)
@@ -827,6 +849,9 @@ func TestVerifC18Concurrent(t *testing.T) {
 			}
 			if bad := h.wrong(); bad != "" {
 				return vs.Violf("C18/object-at-wrong-version", "handler %s subscribed through %s but was handed %s", h.id, h.apiVersion, bad)
+			}
+			if n := atomic.LoadInt32(&h.late); n > 0 {
+				return vs.Violf("C18/event-after-removal", "handler %s was called %d time(s) after RemoveEventHandlers() had returned for it", h.id, n)
 			}
 		}
 		return nil
